@@ -86,6 +86,9 @@ Definition weight (s : state) : Z :=
   wsum vw (st_bvec s) + wsum vw (st_fvec s) + wsum vw (st_ivec s) +
   wsum msgw (st_input s) + wsum msgw (st_output s) + wsum gweight (st_graph s) + wsum bindw (st_bind s).
 
+(* the configured limits a cost may depend on: only max_points_in_random_expressions (CODE.RAND) *)
+Definition limits (s : state) : Z := Z.abs (cfg_max_points_rand (st_cfg s)).
+
 (* ------------------------------------------------------------------ *)
 (* cost building blocks *)
 Definition hd_w {A} (f : A -> Z) (l : list A) : Z := match l with x :: _ => f x | [] => 0 end.
@@ -103,8 +106,7 @@ Definition top_int (s : state) : Z := match st_int s with n :: _ => n | [] => 0 
 
 (* T.ONES / T.ZEROS:  if size > 0 { push(vec![x; size as usize]) } *)
 Definition c_fill (s : state) : Z := 1 + Z.max 0 (top_int s).
-(* the three vector RAND: vec![default; size] / with_capacity(size) + `for _ in 0..size`;
-   (not in the model's registry yet: cost by name only) *)
+(* the three vector RAND: vec![default; size] / with_capacity(size) + `for _ in 0..size` *)
 Definition c_rand_vec (s : state) : Z := 1 + 2 * Z.max 0 (top_int s).
 (* FLOATVECTOR.SINE, repaired: `if vector_size >= 0 { for i in 0..vector_size as usize { push } }` *)
 Definition c_sine (s : state) : Z :=
@@ -130,10 +132,16 @@ Definition c_neighbor (skip : nat) (s : state) : Z :=
       1 + ndim + ntotal * (1 + Z.min ndim 64)
   | _ => 1
   end.
-(* CODE.RAND: limit = min(|n|, |max_points_in_random_expressions|) points are generated;
-   |i32::MIN| overflows: a panic in debug builds, in release builds the `min` is then
-   i32::MIN and `limit as usize` is 2^64 - 2^31 *)
+(* CODE.RAND, repaired: limit = min(n.unsigned_abs(), max_points_in_random_expressions.unsigned_abs())
+   points are generated: controlled by the CONFIGURED limit, not by the operand *)
 Definition c_code_rand (s : state) : Z :=
+  match st_int s with
+  | n :: _ => 1 + Z.min (Z.abs n) (Z.abs (cfg_max_points_rand (st_cfg s)))
+  | [] => 1
+  end.
+(* ... as pinned: min(i32::abs(n), i32::abs(max)) as usize; |i32::MIN| overflows: a panic in debug
+   builds, in release builds the `min` is then i32::MIN and `limit as usize` is 2^64 - 2^31 *)
+Definition c_code_rand_pinned (s : state) : Z :=
   match st_int s with
   | n :: _ => if Z.eqb n min32 then two64 - 2147483648
               else 1 + Z.min (Z.abs n) (Z.abs (cfg_max_points_rand (st_cfg s)))
@@ -253,14 +261,12 @@ Definition mem_str (n : string) (l : list string) : bool := existsb (String.eqb 
 (* the instructions whose work is controlled by the magnitude of an operand *)
 Definition by_operand_names : list string :=
   [ "BOOLVECTOR.ONES"; "BOOLVECTOR.ZEROS"; "INTVECTOR.ONES"; "INTVECTOR.ZEROS"; "FLOATVECTOR.ONES"; "FLOATVECTOR.ZEROS";
-    (* not in the model's registry yet (random-generator family): listed by name *)
+    (* vec![default; size] / with_capacity(size) + one draw per element *)
     "BOOLVECTOR.RAND"; "INTVECTOR.RAND"; "FLOATVECTOR.RAND";
     (* with a positive length *)
     "FLOATVECTOR.SINE";
-    (* ntotal x ndim work from two operands; modelled with the topology family: listed by name *)
-    "LIST.NEIGHBOR*IDS"; "LIST.NEIGHBOR*BVALS"; "LIST.NEIGHBOR*IVALS"; "LIST.NEIGHBOR*FVALS";
-    (* bounded by the configured max_points_in_random_expressions except for i32::MIN (release) *)
-    "CODE.RAND" ].
+    (* ntotal x min(ndim, 64) work from two operands *)
+    "LIST.NEIGHBOR*IDS"; "LIST.NEIGHBOR*BVALS"; "LIST.NEIGHBOR*IVALS"; "LIST.NEIGHBOR*FVALS" ].
 Definition nlogn_names : list string :=
   [ "BOOLVECTOR.SORT*ASC"; "BOOLVECTOR.SORT*DESC"; "INTVECTOR.SORT*ASC"; "INTVECTOR.SORT*DESC";
     "FLOATVECTOR.SORT*ASC"; "FLOATVECTOR.SORT*DESC" ].
@@ -278,15 +284,20 @@ Definition cost_class (n : string) : cclass :=
 
 Definition KnownUnbounded (n : string) : bool := mem_str n by_operand_names.
 
-(* instructions outside the one-step growth theorem although their work is bounded by the state:
+(* instructions outside the one-step growth theorem although their work is bounded by the state
+   and the configured limits:
      CODE.SUBST                          one clone of the substitute PER OCCURRENCE of the pattern: the result
                                          has up to (points of the target) x (weight of the substitute) cells
      GRAPH.NODES, GRAPH.NODES*HISTORY    a node id is pushed once per MATCHING ENTRY of the state vector
                                          (the inner loop has no break): nodes x entries
      CODE.PRINT, GRAPH.PRINT, GRAPH.PRINT*DIFF   push a text: characters per printed cell is a fact about
                                          number formatting (f32 `{:.3}` prints up to 47 characters), outside
-                                         FloatOps's interface *)
+                                         FloatOps's interface
+     NAME.RAND, NAME.RANDBOUNDNAME, CODE.RAND    push generated names (crate `names`, "adjective-noun"): the
+                                         model takes their length from the oracle tape; CODE.RAND pushes up to
+                                         the configured max_points_in_random_expressions points *)
 Definition multiplying_names : list string := [ "CODE.SUBST"; "GRAPH.NODES"; "GRAPH.NODES*HISTORY" ].
 Definition printing_names : list string := [ "CODE.PRINT"; "GRAPH.PRINT"; "GRAPH.PRINT*DIFF" ].
+Definition oracle_names : list string := [ "NAME.RAND"; "NAME.RANDBOUNDNAME"; "CODE.RAND" ].
 Definition GrowthExcluded (n : string) : bool :=
-  KnownUnbounded n || mem_str n multiplying_names || mem_str n printing_names.
+  KnownUnbounded n || mem_str n multiplying_names || mem_str n printing_names || mem_str n oracle_names.
